@@ -31,6 +31,7 @@ CONSTANTS
     \* --- switches: TRUE = repaired behaviour
     DeleteDrainsMailbox,    \* D1: the subscription actor keeps serving its mailbox while it waits for the topic
     SecondDeleteWaits,      \* a Delete drained during a deletion in progress is answered when that deletion is done
+    ExitDrainsGranted,      \* an exiting actor closes its mailbox and drains the requests whose senders held a permit
     ClosedMeansNotFound,    \* D2: a stream whose pull hits a closed mailbox ends with NOT_FOUND
     PullWatchesDeleted,     \* D3: a blocked pull also waits on the deletion signal
     AttachDetached,         \* D4: the attach step of create runs in its own task
@@ -70,15 +71,27 @@ vars == <<tbox, sbox, tdeleted, sclosed, tbusy, tpub, attached, exists, sbusy, s
           expiries, permit, waiters, gen, delsig, pc, sig, sgen, res, got>>
 
 Topic == "T"
-Req(kind, from, arg) == [kind |-> kind, from |-> from, arg |-> arg]
+\* A request in a mailbox FIFO.  `ready`: its sender has put it into the channel.  A sender that
+\* finds a free permit sends in one step; a parked sender is GRANTED a permit when a slot frees up
+\* (its entry moves within the first CAP positions) but the request only becomes visible to the
+\* receiver when the sender is polled again (SenderPush).
+Req(kind, from, arg) == [kind |-> kind, from |-> from, arg |-> arg, ready |-> TRUE]
+Send(box, r) == Append(box, [r EXCEPT !.ready = FALSE])
+\* The request the receiver gets next: the first ready one among the granted positions.
+ReadyIdx(box) == {i \in 1..Len(box) : i <= CAP /\ box[i].ready}
+HasReady(box) == ReadyIdx(box) # {}
+NextIdx(box) == CHOOSE i \in ReadyIdx(box) : \A j \in ReadyIdx(box) : i <= j
+NextReq(box) == box[NextIdx(box)]
+Dequeue(box) == [i \in 1..(Len(box) - 1) |-> IF i < NextIdx(box) THEN box[i] ELSE box[i + 1]]
 
 InBox(box, i) == i <= CAP
 PosOf(box, p) == CHOOSE i \in 1..Len(box) : box[i].from = p
 HasReq(box, p) == \E i \in 1..Len(box) : box[i].from = p
 RemoveFrom(box, p) == SelectSeq(box, LAMBDA r : r.from # p)
-\* Only a parked sender (beyond the capacity) can be withdrawn; a request in the box stays.
+\* A sender that has not put its request in yet (parked, or granted but not pushed) can be
+\* withdrawn; a request that is in the channel stays.
 Withdraw(box, p) ==
-    IF HasReq(box, p) /\ ~InBox(box, PosOf(box, p)) THEN RemoveFrom(box, p) ELSE box
+    IF HasReq(box, p) /\ ~box[PosOf(box, p)].ready THEN RemoveFrom(box, p) ELSE box
 
 IsConsumer(p) == Kind[p] \in {"bpull", "stream"}
 Finished(p) == pc[p] \in {"done", "cancelled"}
@@ -133,7 +146,7 @@ StartSubReq(p) ==
        ELSE IF sclosed[Target[p]]
        THEN /\ pc' = [pc EXCEPT ![p] = "done"] /\ res' = [res EXCEPT ![p] = "CLOSED"]
             /\ UNCHANGED <<sbox>>
-       ELSE /\ sbox' = [sbox EXCEPT ![Target[p]] = Append(@, Req(Kind[p], p, 0))]
+       ELSE /\ sbox' = [sbox EXCEPT ![Target[p]] = Send(@, Req(Kind[p], p, 0))]
             /\ pc' = [pc EXCEPT ![p] = "wait"]
             /\ UNCHANGED res
     /\ UNCHANGED <<tbox, tdeleted, sclosed, tbusy, tpub, attached, exists, sbusy, sdeleter, salso, deleted, backlog, leased,
@@ -142,7 +155,7 @@ StartSubReq(p) ==
 \* Requests addressed to the topic.
 StartTopicReq(p) ==
     /\ pc[p] = "start" /\ Kind[p] \in {"publish", "list", "tdelete"}
-    /\ tbox' = Append(tbox, Req(Kind[p], p, 0))
+    /\ tbox' = Send(tbox, Req(Kind[p], p, 0))
     /\ pc' = [pc EXCEPT ![p] = "wait"]
     /\ UNCHANGED <<sbox, tdeleted, sclosed, tbusy, tpub, attached, exists, sbusy, sdeleter, salso, deleted, backlog, leased,
                    expiries, permit, waiters, gen, delsig, sig, sgen, res, got>>
@@ -154,7 +167,7 @@ StartCreate(p) ==
        THEN /\ pc' = [pc EXCEPT ![p] = "done"] /\ res' = [res EXCEPT ![p] = "ALREADY_EXISTS"]
             /\ UNCHANGED <<tbox, exists>>
        ELSE /\ exists' = exists \cup {Target[p]}
-            /\ tbox' = Append(tbox, Req("attach", p, Target[p]))
+            /\ tbox' = Send(tbox, Req("attach", p, Target[p]))
             /\ pc' = [pc EXCEPT ![p] = "wait"]
             /\ UNCHANGED res
     /\ UNCHANGED <<sbox, tdeleted, sclosed, tbusy, tpub, attached, sbusy, sdeleter, salso, deleted, backlog, leased,
@@ -169,9 +182,9 @@ Answer(p, r, pcs, rs) ==
       IF pcs[p] = "wait" THEN [rs EXCEPT ![p] = r] ELSE rs>>
 
 TopicTurn ==
-    /\ tbusy = "idle" /\ tbox # <<>>
-    /\ LET r == Head(tbox) IN
-       /\ tbox' = Tail(tbox)
+    /\ tbusy = "idle" /\ HasReady(tbox)
+    /\ LET r == NextReq(tbox) IN
+       /\ tbox' = Dequeue(tbox)
        /\ CASE r.kind = "attach" ->
                  /\ attached' = attached \cup {r.arg}
                  /\ LET a == Answer(r.from, "OK", pc, res) IN pc' = a[1] /\ res' = a[2]
@@ -194,14 +207,14 @@ TopicTurn ==
                  THEN \* a post fails at once with Closed: the publish fails
                       /\ LET a == Answer(r.from, "CLOSED", pc, res) IN pc' = a[1] /\ res' = a[2]
                       /\ UNCHANGED <<sbox, tbusy, tpub, attached, sbusy, sdeleter, deleted, delsig, waiters, sig, exists, backlog, leased>>
-                 ELSE /\ sbox' = [s \in Subs |-> IF s \in attached THEN Append(sbox[s], Req("post", Topic, 0)) ELSE sbox[s]]
+                 ELSE /\ sbox' = [s \in Subs |-> IF s \in attached THEN Send(sbox[s], Req("post", Topic, 0)) ELSE sbox[s]]
                       /\ tbusy' = "publishing" /\ tpub' = r.from
                       /\ UNCHANGED <<attached, sbusy, sdeleter, deleted, delsig, waiters, sig, exists, backlog, leased, pc, res>>
-    /\ (Head(tbox).kind # "tdelete" => UNCHANGED tdeleted)
+    /\ (NextReq(tbox).kind # "tdelete" => UNCHANGED tdeleted)
     /\ UNCHANGED <<sclosed, expiries, permit, gen, sgen, got, salso>>
 
 \* All posts of the current publish are in their mailboxes (or consumed): answer the publisher.
-PostParked(s) == \E i \in 1..Len(sbox[s]) : sbox[s][i].kind = "post" /\ ~InBox(sbox[s], i)
+PostParked(s) == \E i \in 1..Len(sbox[s]) : sbox[s][i].kind = "post" /\ ~sbox[s][i].ready
 TopicPublishDone ==
     /\ tbusy = "publishing"
     /\ \A s \in Subs : ~PostParked(s)
@@ -261,19 +274,19 @@ SubHandle(s, r) ==
                  /\ UNCHANGED <<backlog, leased, permit, waiters, sig, got, deleted, sbusy, sdeleter, tbox>>
             ELSE \* set the flag, ask the topic to drop us, wait for its answer
                  /\ deleted' = [deleted EXCEPT ![s] = TRUE]
-                 /\ tbox' = Append(tbox, Req("remove", s, s))
+                 /\ tbox' = Send(tbox, Req("remove", s, s))
                  /\ sbusy' = [sbusy EXCEPT ![s] = "delwait"]
                  /\ sdeleter' = [sdeleter EXCEPT ![s] = r.from]
                  /\ UNCHANGED <<backlog, leased, permit, waiters, sig, pc, res, got>>
 
 SubTurn(s) ==
-    /\ ~sclosed[s] /\ sbox[s] # <<>>
+    /\ ~sclosed[s] /\ HasReady(sbox[s])
     /\ \/ sbusy[s] = "idle"
        \/ (sbusy[s] = "delwait" /\ DeleteDrainsMailbox)     \* repaired: keeps serving (no-ops) while waiting
-    /\ sbox' = [sbox EXCEPT ![s] = Tail(@)]
-    /\ SubHandle(s, Head(sbox[s]))
-    /\ salso' = IF Head(sbox[s]).kind = "delete" /\ deleted[s] /\ sbusy[s] = "delwait" /\ SecondDeleteWaits
-                THEN [salso EXCEPT ![s] = @ \cup {Head(sbox[s]).from}] ELSE salso
+    /\ sbox' = [sbox EXCEPT ![s] = Dequeue(@)]
+    /\ SubHandle(s, NextReq(sbox[s]))
+    /\ salso' = IF NextReq(sbox[s]).kind = "delete" /\ deleted[s] /\ sbusy[s] = "delwait" /\ SecondDeleteWaits
+                THEN [salso EXCEPT ![s] = @ \cup {NextReq(sbox[s]).from}] ELSE salso
     /\ UNCHANGED <<tdeleted, sclosed, tbusy, tpub, attached, exists, expiries, gen, delsig, sgen>>
 
 \* The topic answered the removal: manager removal, deletion signal, clear, answer the deleter.
@@ -296,10 +309,15 @@ SubExit(s) ==
     /\ delsig[s] /\ ~sclosed[s] /\ sbusy[s] = "idle"
     /\ sclosed' = [sclosed EXCEPT ![s] = TRUE]
     /\ sbox' = [sbox EXCEPT ![s] = <<>>]
-    /\ pc' = [p \in Procs |->
-                IF HasReq(sbox[s], p) /\ pc[p] = "wait"
-                THEN (IF Kind[p] \in {"bpull", "stream"} THEN "pulled" ELSE "done") ELSE pc[p]]
-    /\ res' = [p \in Procs |-> IF HasReq(sbox[s], p) /\ pc[p] = "wait" THEN "CLOSED" ELSE res[p]]
+    \* Requests in the channel are dropped and parked senders fail: their callers see Closed.  A
+    \* sender that was granted a permit but has not pushed yet puts its request into the dead
+    \* channel later - nobody ever answers or drops it - unless the actor drains on exit.
+    /\ LET failed(p) == /\ HasReq(sbox[s], p) /\ pc[p] = "wait"
+                         /\ \/ ExitDrainsGranted
+                            \/ sbox[s][PosOf(sbox[s], p)].ready
+                            \/ ~InBox(sbox[s], PosOf(sbox[s], p))
+       IN /\ pc' = [p \in Procs |-> IF failed(p) THEN (IF Kind[p] \in {"bpull", "stream"} THEN "pulled" ELSE "done") ELSE pc[p]]
+          /\ res' = [p \in Procs |-> IF failed(p) THEN "CLOSED" ELSE res[p]]
     /\ UNCHANGED <<tbox, tdeleted, tbusy, tpub, attached, exists, sbusy, sdeleter, salso, deleted, backlog, leased,
                    expiries, permit, waiters, gen, delsig, sig, sgen, got>>
 
@@ -342,7 +360,7 @@ ConsSignalAndSend(p) ==
        /\ sgen' = [sgen EXCEPT ![p] = gen[s]]
        /\ IF sclosed[s]
           THEN /\ pc' = [pc EXCEPT ![p] = "pulled"] /\ res' = [res EXCEPT ![p] = "CLOSED"] /\ UNCHANGED sbox
-          ELSE /\ sbox' = [sbox EXCEPT ![s] = Append(@, Req("cpull", p, 0))]
+          ELSE /\ sbox' = [sbox EXCEPT ![s] = Send(@, Req("cpull", p, 0))]
                /\ pc' = [pc EXCEPT ![p] = "wait"] /\ UNCHANGED res
     /\ UNCHANGED <<tbox, tdeleted, sclosed, tbusy, tpub, attached, exists, sbusy, sdeleter, salso, deleted, backlog, leased,
                    expiries, permit, waiters, gen, delsig, got>>
@@ -425,7 +443,7 @@ Cancel(p) ==
            s  == Target[p]
            \* a pull that is dropped while its send is parked passes the wake-up on (repaired)
            parkedPull == /\ PullHandsOnWakeup /\ Kind[p] \in {"pull", "bpull", "stream"} /\ pc[p] = "wait"
-                         /\ HasReq(sbox[s], p) /\ ~InBox(sbox[s], PosOf(sbox[s], p))
+                         /\ HasReq(sbox[s], p) /\ ~sbox[s][PosOf(sbox[s], p)].ready
            n  == NotifyOne(s, d[1], d[2], d[3])
        IN IF parkedPull
           THEN waiters' = n[1] /\ permit' = n[2] /\ sig' = n[3]
@@ -440,8 +458,21 @@ ProcStep(p) ==
     \/ StartSubReq(p) \/ StartTopicReq(p) \/ StartCreate(p)
     \/ ConsLookup(p) \/ ConsSignalAndSend(p) \/ ConsAfterPull(p) \/ ConsAwait(p)
 
+\* A sender that was granted a permit is polled again and puts its request into the channel.
+SenderPush ==
+    \/ \E i \in 1..Len(tbox) :
+          /\ i <= CAP /\ ~tbox[i].ready
+          /\ tbox' = [tbox EXCEPT ![i].ready = TRUE]
+          /\ UNCHANGED <<sbox, tdeleted, sclosed, tbusy, tpub, attached, exists, sbusy, sdeleter, salso, deleted, backlog, leased,
+                          expiries, permit, waiters, gen, delsig, pc, sig, sgen, res, got>>
+    \/ \E s \in Subs : \E i \in 1..Len(sbox[s]) :
+          /\ i <= CAP /\ ~sbox[s][i].ready /\ ~sclosed[s]
+          /\ sbox' = [sbox EXCEPT ![s][i].ready = TRUE]
+          /\ UNCHANGED <<tbox, tdeleted, sclosed, tbusy, tpub, attached, exists, sbusy, sdeleter, salso, deleted, backlog, leased,
+                          expiries, permit, waiters, gen, delsig, pc, sig, sgen, res, got>>
+
 ActorStep ==
-    \/ TopicTurn \/ TopicPublishDone
+    \/ TopicTurn \/ TopicPublishDone \/ SenderPush
     \/ \E s \in Subs : SubTurn(s) \/ SubDeleteResume(s) \/ SubExit(s)
 
 Progress == ActorStep \/ \E p \in Procs : ProcStep(p)
